@@ -1965,7 +1965,8 @@ func (r *Repository) ResolveRevision(in plumbing.Revision) (*plumbing.Hash, erro
 				commit = c
 			}
 		case revision.CaretReg:
-			history := object.NewCommitPreorderIter(commit, nil, nil)
+			// git returns the youngest matching commit: walk by commit time
+			history := object.NewCommitIterCTime(commit, nil, nil)
 
 			re := item.Regexp
 			negate := item.Negate
